@@ -908,6 +908,17 @@ func removeJobFromList(jobs []*PipelineJob, jobToRemove *PipelineJob) []*Pipelin
 	return jobs
 }
 
+// removeJobFromWaitList returns the wait list without the given job, keeping the order of the remaining jobs.
+func removeJobFromWaitList(waitList []*PipelineJob, jobToRemove *PipelineJob) []*PipelineJob {
+	result := make([]*PipelineJob, 0, len(waitList))
+	for _, job := range waitList {
+		if job != jobToRemove {
+			result = append(result, job)
+		}
+	}
+	return result
+}
+
 // determineIfJobShouldBeRemoved implements the retention period handling.
 func (r *PipelineRunner) determineIfJobShouldBeRemoved(index int, job *PipelineJob) (bool, string) {
 	pipelineDef, pipelineDefExists := r.defs.Pipelines[job.Pipeline]
@@ -971,6 +982,14 @@ func (r *PipelineRunner) cancelJobInternal(id uuid.UUID) error {
 	if job.Start == nil {
 		job.markAsCanceled()
 
+		// A canceled job must not occupy a slot of the queue or block the jobs queued behind it,
+		// so stop its start timer and take it off the wait list
+		if job.startTimer != nil {
+			job.startTimer.Stop()
+			job.startTimer = nil
+		}
+		r.waitListByPipeline[job.Pipeline] = removeJobFromWaitList(r.waitListByPipeline[job.Pipeline], job)
+
 		log.
 			WithField("component", "runner").
 			WithField("pipeline", job.Pipeline).
@@ -978,6 +997,9 @@ func (r *PipelineRunner) cancelJobInternal(id uuid.UUID) error {
 			Debugf("Marked job as canceled, since it was not started")
 
 		r.requestPersist()
+
+		// The canceled job might have been the one the queue was waiting for
+		r.startJobsOnWaitList(job.Pipeline)
 
 		return nil
 	}
